@@ -30,3 +30,13 @@ Print Assumptions c13_dos_tok_roundtrip.
 Theorem c13_dos_tok_refused : forall tok, 65536 <= lenN tok -> dos_pack_tok tok = RErr 1.
 Proof. exact dos_tok_len_refused. Qed.
 Print Assumptions c13_dos_tok_refused.
+
+(* ProDOS binary files: data, length and load address come back; an address beyond 16 bits is refused, not truncated *)
+Theorem c13_prodos_bin_roundtrip : forall dat addr, addr < 65536 ->
+  exists f, prodos_pack_bin dat addr = ROk f /\ prodos_unpack_bin f = (addr, dat).
+Proof. exact prodos_bin_roundtrip. Qed.
+Print Assumptions c13_prodos_bin_roundtrip.
+
+Theorem c13_prodos_bin_refused : forall dat addr, 65536 <= addr -> prodos_pack_bin dat addr = RErr 1.
+Proof. exact prodos_bin_addr_refused. Qed.
+Print Assumptions c13_prodos_bin_refused.
